@@ -10,7 +10,7 @@ RULE = (
     "Hypothesis draws profiles of 1..3 autosomes; each chromosome is either a single clean step (levels 0 and -1 or 0 and "
     "+0.585, also 0 and +1 for haar; either order; 100..400 bins per side) or a flat control (100..600 bins, optionally with "
     "a centromere-sized gap of >= 1e5 bases in the middle, which makes two arms); Gaussian noise with sd in [0.01, 0.1] from "
-    "numpy.random.default_rng(seed drawn by Hypothesis), weights U[0.5, 1], bin sizes 50..2000, gaps < 20 000; method haar or "
+    "numpy.random.default_rng(seed drawn by Hypothesis), weights U[0.5, 1], bin sizes 50..2000 (x1, x60 or x250), gaps < 20 000; method haar or "
     "hmm-germline. Oracle: planted truth - per stepped chromosome exactly two segments, |probes of the first - true position| "
     "<= 5, both segment log2 within 0.1 of the true levels; per flat chromosome exactly one segment per arm. Non-trivial = a "
     "case holding at least one step; distinct = distinct (levels, directions, sizes, noise seed, method)."
@@ -49,7 +49,10 @@ def strategy(draw):
             else:
                 chroms.append({"name": f"{style}{k}", "kind": "flat", "n": draw(st.integers(100, 600)), "gap": False})
     return {"method": method, "chroms": chroms, "sd": draw(st.one_of(st.sampled_from([0.01, 0.1]), st.integers(1, 10).map(lambda k: k / 100.0))),
-            "seed": draw(st.integers(0, 2 ** 31))}
+            "seed": draw(st.integers(0, 2 ** 31)),
+            # bin sizes: targeted-panel scale (50..2000 bases) or low-pass WGS scale (x60, x250: up to 5e5 bases) -
+            # seeded change C11h measured the centromere gap start-to-start, so a wide bin looked like a gap
+            "binscale": draw(st.sampled_from([1, 1, 1, 60, 250]))}
 
 
 def build(case):
@@ -68,7 +71,7 @@ def build(case):
         for i, lv in enumerate(levels):
             if gap_at is not None and i == gap_at:
                 pos += 150000 + int(rng.integers(0, 3000000))
-            size = int(rng.integers(50, 2001))
+            size = int(rng.integers(50, 2001)) * case.get("binscale", 1)
             rows.append((c["name"], pos, pos + size, "G%d" % (i // 7), lv + float(rng.normal(0, case["sd"])),
                          float(rng.uniform(0.5, 1.0))))
             pos += size + int(rng.integers(0, 20000)) * int(rng.integers(0, 2))
